@@ -555,7 +555,7 @@ pub fn runner_cli(cfg: &Config) -> RunnerCli {
             args.extend(["--retry".into(), r.to_string()]);
         }
         if let Some(d) = cfg.retry_after_cli {
-            args.extend(["--retry-after".into(), format!("{}ms", d.as_millis())]);
+            args.extend(["--retry-after".into(), format!("{}us", d.as_micros())]);
         }
         if let Some(f) = &cfg.retry_filter_cli {
             args.extend(["--retry-tag-filter".into(), f.clone()]);
